@@ -405,6 +405,39 @@ CORPUS["C10"] += [B("zero potential treated like no potential in the gradient bu
                   B("solver builds link-free operators for zero field (through a local)", "R10.7", NONE_LINKS_VIA)]
 CORPUS["C04"] += [B("solver builds link-free operators for zero field", "R04.6", NONE_LINKS)]
 
+
+# variants for the rules added after the second round, part 2 --------------------------------------------------------------
+UNION_OLD = "        if not others:\n            return self.copy()\n        first, *rest = others\n        return Polygon(\n            name=name or self.name,\n            points=self._join_via(first, \"union\"),\n            mesh=self.mesh,\n        ).union(*rest, name=name)\n"
+HELPER = "    def _join_many(self, others, operation, name=None):\n        polygon = %s\n        for other in others:\n            polygon = Polygon(\n                name=name or self.name,\n                points=polygon._join_via(other, operation),\n                mesh=self.mesh,\n            )\n        return polygon\n\n    def _join_via("
+UNION_LOOP_SELF = [(POLY, UNION_OLD, "        return self._join_many(others, \"union\", name=name)\n"), (POLY, "    def _join_via(", HELPER % "self")]
+UNION_LOOP_COPY = [(POLY, UNION_OLD, "        return self._join_many(others, \"union\", name=name)\n"), (POLY, "    def _join_via(", HELPER % "self.copy()")]
+UNION_EMPTY_SELF = (POLY, UNION_OLD, UNION_OLD.replace("            return self.copy()\n", "            return self\n"))
+GETSTATE_OLD = "        state = self.__dict__.copy()\n        # These attributes live in the __slots__ of Parameter, not in __dict__.\n"
+GETSTATE_LIVE = (PARAM, GETSTATE_OLD, "        state = vars(self)\n")
+GETSTATE_LIVE2 = (PARAM, GETSTATE_OLD, "        state = self.__dict__\n")
+GETSTATE_DICT = (PARAM, GETSTATE_OLD, "        state = dict(vars(self))\n")
+EXC_NARROW = (RUNNER, "        except BaseException:\n            # Never leave a partially written frame in the output file.", "        except Exception:\n            # Never leave a partially written frame in the output file.")
+EXC_PAIR = (RUNNER, "        except BaseException:\n            # Never leave a partially written frame in the output file.", "        except (Exception, KeyboardInterrupt):\n            # Never leave a partially written frame in the output file.")
+EXC_BARE = (RUNNER, "        except BaseException:\n            # Never leave a partially written frame in the output file.", "        except:  # noqa: E722\n            # Never leave a partially written frame in the output file.")
+EXPORT_OLD = "            if h5path is None:\n                self._save_to_hdf5_file(self.path, save_mesh=save_mesh)\n            else:\n                shutil.copy(self.path, h5path)\n                self._save_to_hdf5_file(h5path, save_mesh=save_mesh)\n            return\n"
+EXPORT_EXISTS = (SOLN, EXPORT_OLD, "            if h5path is None:\n                h5path = self.path\n            if not os.path.exists(h5path):\n                shutil.copy(self.path, h5path)\n            self._save_to_hdf5_file(h5path, save_mesh=save_mesh)\n            return\n")
+EXPORT_MERGED = (SOLN, EXPORT_OLD, "            if h5path is None:\n                h5path = self.path\n            else:\n                shutil.copy(self.path, h5path)\n            self._save_to_hdf5_file(h5path, save_mesh=save_mesh)\n            return\n")
+APPLIED_OLD = "        applied = (applied * ureg(f\"{self.field_units} * {device.length_units}\")).to(\n            units\n        )\n        if not with_units:\n            applied = applied.magnitude\n"
+APPLIED_SKIP = (SOLN, APPLIED_OLD, "        if with_units:\n            applied = (applied * ureg(f\"{self.field_units} * {device.length_units}\")).to(units)\n")
+APPLIED_SPLIT = (SOLN, APPLIED_OLD, "        applied = applied * ureg(f\"{self.field_units} * {device.length_units}\")\n        applied = applied.to(units)\n        if not with_units:\n            applied = applied.magnitude\n")
+PLOT_MU = (("solution/plot_solution.py"), "    mu = mu - np.nanmin(mu)\n", "    mu -= np.nanmin(mu)\n")
+CORPUS["C18"] += [B("set operations through a loop helper that starts from self", "R18.7", *UNION_LOOP_SELF), B("union of nothing returns self", "R18.7", UNION_EMPTY_SELF),
+                  E("set operations through a loop helper that starts from a copy", *UNION_LOOP_COPY)]
+CORPUS["C16"] += [B("__getstate__ fills the live attribute dictionary (vars)", "R16.9", GETSTATE_LIVE), B("__getstate__ fills the live attribute dictionary (__dict__)", "R16.9", GETSTATE_LIVE2),
+                  E("__getstate__ copies with dict(vars(self))", GETSTATE_DICT)]
+CORPUS["C14"] += [B("__getstate__ fills the live attribute dictionary", "R14.10", GETSTATE_LIVE), B("export copies the raw file only if the target does not exist", "R14.9", EXPORT_EXISTS),
+                  E("export branches merged, copy kept unconditional", EXPORT_MERGED), E("__getstate__ copies with dict(vars(self))", GETSTATE_DICT)]
+CORPUS["C15"] += [B("frame cleanup only for Exception", "R15.5", EXC_NARROW), E("frame cleanup for (Exception, KeyboardInterrupt)", EXC_PAIR), E("frame cleanup with a bare except", EXC_BARE)]
+CORPUS["C20"] += [B("applied potential converted only when units are requested", "R20.9", APPLIED_SKIP), E("applied potential converted in two statements", APPLIED_SPLIT)]
+CORPUS["C13"] += [B("Polyak update in place", "R13.7", A_INPLACE), E("difference computed in a fresh copy", DA_COPY)]
+CORPUS["C11"] += [B("plotting shifts the solution's mu in place", "R11.7", PLOT_MU)]
+CORPUS["C09"] += [B("plotting shifts the solution's mu in place", "R09.6", PLOT_MU)]
+
 # ---------------------------------------------------------------------------
 # generic behaviour-preserving transformations of the anchor functions
 # ---------------------------------------------------------------------------
